@@ -12,7 +12,8 @@ def plans(tier):
         ]
     return [
         ("aff", pc.consts(H, N=4, N0=4, weight="W111", win=1, passive=True, thr=1, mark=True, clients=(1, 2, 3), outcomes=("ok", "fail"))),
-        ("append", pc.consts(H, N=5, N0=2, weight="W111", win=1, passive=False, mark=True, admin=True, clients=(1, 2, 3), outcomes=("ok",))),
+        ("append", pc.consts(H, N=4, N0=2, weight="W111", win=1, passive=False, mark=False, admin=True, clients=(1, 2, 3), outcomes=("ok",))),
+        ("append-eject", pc.consts(H, N=3, N0=2, weight="W111", win=1, passive=False, mark=True, admin=True, clients=(1, 2), outcomes=("ok",))),
     ]
 
 
